@@ -109,7 +109,13 @@ class Engine:
             # trivially true obligations are still counted (discharged syntactically)
             self.obligations.append(Obligation(name, [], z3.BoolVal(True), line, kind))
             return
-        self.obligations.append(Obligation(name, list(st.pc) + list(extra_hyps), goal, line, kind))
+        hidden = getattr(self, 'hidden', None)
+        if hidden:
+            # hypotheses a loop contract chose to hide from its body's obligations (dropping hypotheses is sound)
+            pc = [t for k, t in enumerate(st.pc) if st.tags.get(k) not in hidden]
+        else:
+            pc = list(st.pc)
+        self.obligations.append(Obligation(name, pc + list(extra_hyps), goal, line, kind))
 
     # ------------------------------------------------------------------
     # symbolic inputs
